@@ -10,7 +10,12 @@ check("C01", "model_checking",
       "in both file orders, with unused private constants added) must behave like the single file. The documented C interoperability is an "
       "executed family of its own (CInterop.tla: foreign functions whose meaning the specification defines, both call directions, all ABI "
       "integer types with dirty upper bits, views, pointers, parameter lists up to 12): C templates compiled by clang, the program linked "
-      "and run under lli and natively (clang -O0 / -O1), the calling-convention and linkage facts of the IR compared with the rule.",
+      "and run under lli and natively (clang -O0 / -O1), the calling-convention and linkage facts of the IR compared with the rule. "
+      "Further exhaustive families (MC_MachineData / Frames / Nest over MachineBuild.tla): arrays of 0..1000 elements, zero-length and 3-dimensional arrays, "
+      "structures of 12 members nested 3 deep, word copies, views of views, pointers across loop iterations, loop-local declarations (also constant "
+      "aggregates), recursion, 1-12 parameters of every type, 14 names x 8 namespace roles, nested loops with gotos to outer labels. Type inference "
+      "(Inference.tla): every body with unannotated declarations / unsuffixed literals up to the bound whose types are determined must be accepted and "
+      "behave like its fully annotated twin. Every fourth replayed program is also compiled as the SECOND module of a compilation.",
       "Trusted: TLC, Machine.tla/Wide.tla (Wide is model-checked against native arithmetic for 8/16 bits), Layout.tla, decimal<->limb "
       "conversion in Python, lli. Stage 3 of the design: all integer widths, bool, casts, blocks/goto/if-else/loop, calls in statements and "
       "expressions, pointers with explicit address assignment, views, slice pointers, lengths, multi-dimensional arrays, structs, words, "
